@@ -739,7 +739,7 @@ func (ck *checker) located(entry string, paths []jp.Expr, vals []any, data any, 
 func normalized(x jp.Expr) bool {
 	for i, f := range x {
 		switch f.(type) {
-		case jp.Root:
+		case jp.Root, jp.At: // a path rooted at @ is reported rooted at @
 			if i != 0 {
 				return false
 			}
